@@ -203,3 +203,138 @@ pub fn op_proto(bytes: &[u8]) -> String {
         Err(e) => format!("err {}", error(&e)),
     }
 }
+
+// ------------------------------------------------------------------ v5
+
+use crate::v5text;
+use mqtt_proto::v5;
+
+pub fn v5_dec(bytes: &[u8]) -> String {
+    match v5::Packet::decode(bytes) {
+        Ok(Some(p)) => {
+            let mut rd: &[u8] = bytes;
+            let _ = futures_lite::future::block_on(v5::Packet::decode_async(&mut rd));
+            format!("ok {} {}", bytes.len() - rd.len(), v5text::show(&p))
+        }
+        Ok(None) => "none".into(),
+        Err(e) => format!("err {}", error_v5(&e)),
+    }
+}
+
+pub fn v5_deca(bytes: &[u8], term: Term, sched: Vec<Sched>) -> String {
+    let mut rd = ScriptReader::new(bytes.to_vec(), sched, term);
+    let res = {
+        let fut = v5::Packet::decode_async(&mut rd);
+        let mut fut = Box::pin(fut);
+        drive(fut.as_mut()).0
+    };
+    match res {
+        Ok(p) => format!("ok {} {}", rd.pos, v5text::show(&p)),
+        Err(e) => format!("err {}", error_v5(&e)),
+    }
+}
+
+pub fn v5_hdr(bytes: &[u8]) -> String {
+    let mut rd: &[u8] = bytes;
+    let r = futures_lite::future::block_on(v5::Header::decode_async(&mut rd));
+    let r2 = v5::Header::decode(bytes);
+    assert_eq!(r, r2, "Header::decode differs from block_on(decode_async)");
+    match r {
+        Ok(h) => format!("ok {} {} {} {} {} {}", crate::tables::v5_type_nibble(h.typ), v3text::b01(h.dup), h.qos as u8, v3text::b01(h.retain), h.remaining_len, bytes.len() - rd.len()),
+        Err(e) => format!("err {}", error_v5(&e)),
+    }
+}
+
+fn part5<E: Encodable>(e: &E) -> String {
+    let (b, l) = part(e);
+    format!("{}/{}", b, l)
+}
+
+pub fn v5_parts(p: &v5::Packet) -> String {
+    use v5::Packet::*;
+    match p {
+        Connect(c) => {
+            let w = match &c.last_will {
+                Some(w) => format!(" will={} wprops={}", part5(w), part5(&w.properties)),
+                None => String::new(),
+            };
+            format!("body={} props={}{}", part5(c), part5(&c.properties), w)
+        }
+        Connack(x) => format!("body={} props={}", part5(x), part5(&x.properties)),
+        Publish(x) => format!("body={} props={}", part5(x), part5(&x.properties)),
+        Puback(x) => format!("body={} props={}", part5(x), part5(&x.properties)),
+        Pubrec(x) => format!("body={} props={}", part5(x), part5(&x.properties)),
+        Pubrel(x) => format!("body={} props={}", part5(x), part5(&x.properties)),
+        Pubcomp(x) => format!("body={} props={}", part5(x), part5(&x.properties)),
+        Subscribe(x) => format!("body={} props={}", part5(x), part5(&x.properties)),
+        Suback(x) => format!("body={} props={}", part5(x), part5(&x.properties)),
+        Unsubscribe(x) => format!("body={} props={}", part5(x), part5(&x.properties)),
+        Unsuback(x) => format!("body={} props={}", part5(x), part5(&x.properties)),
+        Disconnect(x) => format!("body={} props={}", part5(x), part5(&x.properties)),
+        Auth(x) => format!("body={} props={}", part5(x), part5(&x.properties)),
+        Pingreq | Pingresp => "body=~".into(),
+    }
+}
+
+pub fn v5_enc(toks: &[&str]) -> String {
+    match v5text::parse(toks) {
+        v3text::Build::Syntax => "bad-op".into(),
+        v3text::Build::Unconstructible(w) => format!("unconstructible {}", w),
+        v3text::Build::Ok(p) => {
+            let len = enc_len_str(p.encode_len(), error_v5);
+            match p.encode() {
+                Ok(vb) => format!("ok {} len={} {}", hex(vb.as_ref()), len, v5_parts(&p)),
+                Err(e) => format!("err {} len={}", error(&e), len),
+            }
+        }
+    }
+}
+
+pub fn v5_poll(bytes: &[u8], sched: Vec<Sched>, term: Term) -> String {
+    use mqtt_proto::v5::{PollPacket, PollPacketState};
+    let mut state = PollPacketState::default();
+    let mut rd = ScriptReader::new(bytes.to_vec(), sched, term);
+    let waker = std::task::Waker::noop();
+    let mut cx = std::task::Context::from_waker(waker);
+    let mut pend = 0usize;
+    let res = 'outer: loop {
+        let mut fut = PollPacket::new(&mut state, &mut rd);
+        loop {
+            match std::future::Future::poll(Pin::new(&mut fut), &mut cx) {
+                std::task::Poll::Ready(r) => break 'outer r,
+                std::task::Poll::Pending => {
+                    pend += 1;
+                    if pend > 1_000_000 {
+                        panic!("poll spins");
+                    }
+                    drop(fut);
+                    continue 'outer;
+                }
+            }
+        }
+    };
+    let r = match res {
+        Ok((total, body, p)) => {
+            let body: Vec<u8> = body.into_iter().map(|b| unsafe { b.assume_init() }).collect();
+            format!("ok total={} body={} {}", total, hex_or_dash(&body), v5text::show(&p))
+        }
+        Err(e) => format!("err {}", error_v5(&e)),
+    };
+    format!("{} consumed={} pend={} reqs={}", r, rd.pos, rd.pendings, show_reqs(&rd.requests))
+}
+
+pub fn v5_cwp(proto: &str, rl: u32, bytes: &[u8]) -> String {
+    let p = match proto {
+        "3" => Protocol::V310,
+        "4" => Protocol::V311,
+        "5" => Protocol::V500,
+        _ => return "bad-op".into(),
+    };
+    let header = v5::Header::new_with(0x10, rl).unwrap();
+    let mut rd: &[u8] = bytes;
+    match futures_lite::future::block_on(v5::Connect::decode_with_protocol(&mut rd, header, p)) {
+        Ok(c) => format!("ok {} {}", bytes.len() - rd.len(), v5text::show(&v5::Packet::Connect(c))),
+        Err(e) if e.is_eof() => "more".into(),
+        Err(e) => format!("err {}", error_v5(&e)),
+    }
+}
